@@ -11,13 +11,18 @@
  *           seed and data, LEN and OFF concrete per query (prologue / epilogue
  *           byte steps at every alignment)
  *   MODE 4  ext2fs_crc32_be likewise
- *   MODE 5  one slice-by-8 step (8 aligned bytes), upper half: data zero, seed
- *           symbolic  (== DO_CRC8(seed))     vs 8 bitwise zero-byte steps
- *   MODE 6  one slice-by-8 step, lower half: seed 0, bytes 0..3 zero, bytes 4..7
- *           symbolic (== DO_CRC4(q))         vs bitwise definition
- *   MODE 7/8 = 5/6 for crc32_be
- * OUTSIDE: that a full step is the XOR of the two halves (GF(2)-linearity of the CRC) is an algebraic
- * argument, not decided; the monolithic 96-bit query finished on no back end.
+ *   MODE 5  whole function over LEN bytes at offset OFF (default: one aligned slice-by-8
+ *           step, LEN 8, OFF 0; other queries mix prologue, several slice steps and
+ *           epilogue, LEN <= 19): for each of the 4 + LEN input byte lanes (4 seed bytes,
+ *           LEN data bytes) separately, that byte symbolic and all others zero: result ==
+ *           bitwise definition.  This pins WHICH table is applied to WHICH byte lane of the
+ *           two words, and that every byte is consumed exactly once, in order.
+ *   MODE 7  the same for crc32_be
+ * OUTSIDE: the step with several non-zero bytes at once.  The code computes the XOR of eight table look-ups, one
+ * per byte lane, and every table has entry 0 == 0 (MODE 1/2), so the step is the XOR of its single-lane values;
+ * the CRC definition is GF(2)-linear in (seed, data) for a fixed length.  Equality on every single-lane input
+ * (MODE 5/7) therefore extends to all inputs -- an algebraic argument, not decided by the solver: the monolithic
+ * 96-bit query and even the 32-bit half-step queries finished on no back end (default, kissat, z3; 150 s).
  */
 #include "lib/ext2fs/crc32c.c"
 
@@ -25,7 +30,11 @@
 #define MODE 3
 #endif
 #ifndef LEN
+#if MODE == 5 || MODE == 7
+#define LEN 8
+#else
 #define LEN 1
+#endif
 #endif
 #ifndef OFF
 #define OFF 0
@@ -40,7 +49,7 @@ struct vf_in {
 VF_DECLARE_INPUT(struct vf_in, IN)
 #include "vf_input.inc"
 
-static unsigned char vf_buf[24] __attribute__((aligned(8)));
+static unsigned char vf_buf[40] __attribute__((aligned(8)));
 
 /* definitions: one message bit at a time */
 static __u32 ref_le_byte(__u32 crc, unsigned char b, __u32 poly)
@@ -102,26 +111,29 @@ int main(void)
 	got = ext2fs_crc32_be(IN.seed, vf_buf + OFF, LEN);
 	PROP(got == want, "crc32_be equals bitwise definition");
 #endif
-#elif MODE >= 5 && MODE <= 8
+#elif MODE == 5 || MODE == 7
 	{
-		__u32 seed = (MODE == 5 || MODE == 7) ? IN.seed : 0;
-		want = seed;
-		for (i = 0; i < 8; i++) {
-			unsigned char b = ((MODE == 6 || MODE == 8) && i >= 4) ? IN.data[i] : 0;
-			vf_buf[i] = b;
-#if MODE <= 6
-			want = ref_le_byte(want, b, 0x82F63B78u);
+		int pos;
+		for (pos = 0; pos < 4 + LEN; pos++) {
+			__u32 seed = pos < 4 ? (__u32) IN.idx << (8 * pos) : 0;
+			want = seed;
+			for (i = 0; i < LEN; i++) {
+				unsigned char b = (pos >= 4 && i == pos - 4) ? IN.idx : 0;
+				vf_buf[OFF + i] = b;
+#if MODE == 5
+				want = ref_le_byte(want, b, 0x82F63B78u);
 #else
-			want = ref_be_byte(want, b, 0x04C11DB7u);
+				want = ref_be_byte(want, b, 0x04C11DB7u);
+#endif
+			}
+#if MODE == 5
+			got = ext2fs_crc32c_le(seed, vf_buf + OFF, LEN);
+			PROP(got == want, "crc32c_le slice-by-8 step, one non-zero byte lane, equals bitwise definition");
+#else
+			got = ext2fs_crc32_be(seed, vf_buf + OFF, LEN);
+			PROP(got == want, "crc32_be slice-by-8 step, one non-zero byte lane, equals bitwise definition");
 #endif
 		}
-#if MODE <= 6
-		got = ext2fs_crc32c_le(seed, vf_buf, 8);
-		PROP(got == want, "crc32c_le slice-by-8 half step equals bitwise definition");
-#else
-		got = ext2fs_crc32_be(seed, vf_buf, 8);
-		PROP(got == want, "crc32_be slice-by-8 half step equals bitwise definition");
-#endif
 	}
 #endif
 	VF_END();
